@@ -17,6 +17,8 @@ Ops
   fields match <fieldNameHex> <casing> <nameHex> <flagBits> → 0|1
   fields omit <optBits> <flagBits> <valBits>    → 0|1   (flagBits: 1 OmitZeroStructFields, 2 OmitEmptyWithLegacySemantics;
                                                    valBits: 1 zero, 2 legacyEmpty, 4 jsonEmpty)
+  fields omitz <optBits> <flagBits> <n|i|p|v|a> <valBits> → 0|1  (zero test spelled out: kind of isZero closure;
+                                                   valBits: 1 goZero, 2 legacyEmpty, 4 jsonEmpty, 8 isNil, 16 elemNilPtr, 32 IsZero() result)
   optBits: hasName + 2*casing + 8*embed + 16*omitzero + 32*omitempty + 64*string + 128*format
 -/
 import JsonV.Oracle.Util
@@ -192,6 +194,14 @@ def handle (op : String) (args : List String) : String :=
     match ob.toNat?, fl.toNat?, vb.toNat? with
     | some ob, some fl, some vb => boolStr (omitted (optsOfBits ob) (bit fl 1) (bit fl 2) (bit vb 1) (bit vb 2) (bit vb 4))
     | _, _, _ => badArgs
+  | "omitz", [ob, fl, kd, vb] =>
+    -- kd: n|i|p|v|a ; valBits: 1 goZero, 2 legacyEmpty, 4 jsonEmpty, 8 isNil, 16 elemNilPtr, 32 methodZero
+    let k : Option ZeroKind := match kd with
+      | "n" => some .none | "i" => some .iface | "p" => some .ptr | "v" => some .value | "a" => some .addr | _ => none
+    match ob.toNat?, fl.toNat?, k, vb.toNat? with
+    | some ob, some fl, some k, some vb =>
+      boolStr (omittedZ (optsOfBits ob) (bit fl 1) (bit fl 2) k (bit vb 8) (bit vb 16) (bit vb 32) (bit vb 1) (bit vb 2) (bit vb 4))
+    | _, _, _, _ => badArgs
   | _, _ => "ERR unimplemented"
 
 end JsonV.Oracle.Fields
